@@ -9,13 +9,47 @@ Shared with C03's runner harness: the report of a failed lift / CFG-stage report
 """
 import os, sys, re, json
 import z3
-from . import common, C03
+from . import common
+from . import C03
+from .irbuild import IR
 from mirsym.engine import Harness, explore, Stats, Unsupported
 from mirsym.values import *
 from mirsym.models import some, none
 
 
+def run_lift_error(task):
+    """every error value that makes the lifting of a definition fail (CFGError / SSAError returned as Err) is turned into an
+    ERROR-level report: the variant is a solver variable; ShadowingVariableWarning is never returned as Err (it is a finding)"""
+    pr = C03.prog(); ir = IR(pr)
+    h = Harness(pr, 'structure'); h.notes['render_format'] = True
+    en = task['enum']; variants = pr.defs.enum_variants(en)
+    d = z3.Int('variant'); h.inputs['variant'] = d
+    base = [d >= min(x for _, x, _ in variants), d <= max(x for _, x, _ in variants)]
+    fn = [f for n, f in pr.crates['structure'].items() if n.endswith('>::into_report') and ('control_flow_graph/errors.rs' if en == 'CFGError' else 'static_single_assignment/errors.rs') in n][0]
+    cat = C03.cat_discr(pr)
+    stats = Stats()
+
+    def entry(ex):
+        k = ex.concretize(d, base[0].arg(1).as_long(), base[1].arg(1).as_long())
+        name, _, fields = [v for v in variants if v[1] == k][0]
+        ex.notes['variant'] = name
+        vals = {'name': StrV.of('x'), 'file_id': some(0), 'primary_file_id': some(0), 'secondary_file_id': some(0), 'file_location': ir.range_(1, 2), 'location': ir.range_(1, 2),
+                'primary_location': ir.range_(1, 2), 'secondary_location': ir.range_(3, 4)}
+        val = Enum(en, name, [vals[f] for f in fields])
+        return ex.call_mir(fn, [Ref([val], 0) if fn.args and fn.args[0][1].strip().startswith('&') else val])
+
+    def post(ex, rep_):
+        name = ex.notes['variant']
+        if name == 'ShadowingVariableWarning': return
+        c = ir.get(rep_, 'category')
+        iserr = (c.var == 'Error') or (not isinstance(c.var, str) and c.var == cat['Error'])
+        ex.oblige(iserr, 'lift-error-level', 'a definition that cannot be lifted (%s::%s) is reported with an error-level report (got %s): with --level error it would otherwise be dropped silently' % (en, name, c.var), extra={'variant': name})
+    st, vs, inc = explore(h, entry, None, post=post, base=base, stats=stats, seed=common.seed())
+    return {'stats': common.pack_stats(stats), 'violations': [common.pack_violation(v) for v in vs]}
+
+
 def run_task(task):
+    if task.get('kind') == 'lift-error': return run_lift_error(task)
     if task.get('kind') == 'version': return run_version(task)
     if task.get('kind') == 'filestack':
         from . import C19
@@ -74,7 +108,8 @@ def main(tier, replay=None):
 
     def tasks(tier, prop='C02'):
         return [{'kind': 'version', 'pragma': True, 'prop': 'C02'}, {'kind': 'version', 'pragma': False, 'prop': 'C02'},
-                {'kind': 'filestack', 't': {'part': 'new', 'n': 1}, 'prop': 'C02'}, {'kind': 'filestack', 't': {'part': 'new', 'n': 2}, 'prop': 'C02'}] + orig_tasks('quick', prop) + \
+                {'kind': 'filestack', 't': {'part': 'new', 'n': 1}, 'prop': 'C02'}, {'kind': 'filestack', 't': {'part': 'new', 'n': 2}, 'prop': 'C02'},
+                {'kind': 'lift-error', 'enum': 'CFGError', 'prop': 'C02'}, {'kind': 'lift-error', 'enum': 'SSAError', 'prop': 'C02'}] + orig_tasks('quick', prop) + \
                ([t for t in orig_tasks('thorough', prop) if t['kind'] == 'main' and t['allow'] == 0 and sorted(t['codes']) == t['codes'] and t['codes'][0] == 0] if tier == 'thorough' else [])
     c3.tasks = tasks
     orig_scen = c3.scenario_of
@@ -83,12 +118,13 @@ def main(tier, replay=None):
         if t.get('kind') == 'version':
             m = v['model']; return {'kind': 'version', 'req': [m.get('maj', 0), m.get('min', 0), m.get('pat', 0)] if t['pragma'] else None}
         if t.get('kind') == 'filestack': return {'kind': 'missing-input', 'n': t['t']['n']}
+        if t.get('kind') == 'lift-error': return {'kind': 'lift-error', 'enum': t['enum'], 'variant': (v.get('extra') or {}).get('variant')}
         return orig_scen(t, v)
     c3.scenario_of = scenario_of
     orig_is = c3.is_c02_violation
-    c3.is_c02_violation = lambda sc, v: True if sc.get('kind') in ('version', 'missing-input') else orig_is(sc, v)
+    c3.is_c02_violation = lambda sc, v: True if sc.get('kind') in ('version', 'missing-input', 'lift-error') else orig_is(sc, v)
     orig_role = c3.role_of
-    c3.role_of = lambda sc, v, prop: {'function': 'check_compiler_version', 'kind': v['kind'], 'class': 'any'} if sc.get('kind') == 'version' else ({'function': 'FileStack::new', 'kind': v['kind'], 'class': 'missing-input'} if sc.get('kind') == 'missing-input' else orig_role(sc, v, prop))
+    c3.role_of = lambda sc, v, prop: {'function': 'check_compiler_version', 'kind': v['kind'], 'class': 'any'} if sc.get('kind') == 'version' else ({'function': '%s::into_report' % sc['enum'], 'kind': v['kind'], 'class': str(sc.get('variant'))} if sc.get('kind') == 'lift-error' else ({'function': 'FileStack::new', 'kind': v['kind'], 'class': 'missing-input'} if sc.get('kind') == 'missing-input' else orig_role(sc, v, prop)))
     # route this module's run_task through the shared pool
     orig_run = common.run_tasks
     common_run = lambda mod, ts, **kw: orig_run('specs.C02', ts, **kw)
